@@ -378,6 +378,15 @@ def check_ood(case, doc, labels):
                 return violation("reader does not terminate on out-of-dialect document\n%s" % doc, labels, True)
             return discard("slow")
         return ok(labels | {"probe-raised"}, True)
+    # blank nodes are compared by kind in the triples, and by their NUMBER: two anonymous nodes are two nodes
+    import rdflib as _rdflib
+    _g = _rdflib.Graph()
+    _g.parse(data=doc, format="turtle")
+    want_b = len({t for tr in _g for t in (tr[0], tr[2]) if isinstance(t, _rdflib.BNode)})
+    got_b = len({t[1] for tr in res for t in (tr[0], tr[2]) if t[0] == "bnode"})
+    if got_b != want_b:
+        return violation("out-of-dialect document read silently with %d distinct blank nodes, a standard parser sees %d\n%s\n yielded %s" % (
+            got_b, want_b, doc, res[:6]), labels, True)
     # compared as sets: the projection drops the lexical form, and rdflib merges literals that differ only in it ("72", "+72")
     got, want = sorted(set(strip_b(res))), sorted(set(strip_b(rl)))
     if got != want:
